@@ -14,7 +14,14 @@ import (
 
 // C10: delete undoes insert/embed; concat undoes split.
 
+type c10Op struct {
+	Op string `json:"op"`
+	A  int    `json:"a,omitempty"`
+	B  int    `json:"b,omitempty"`
+}
+
 type c10Case struct {
+	Prog []c10Op `json:"program,omitempty"`
 	Op   string   `json:"op"` // insert-delete | embed-delete | cut-concat
 	L    int      `json:"L"`
 	Locs []string `json:"locations"`
@@ -39,6 +46,8 @@ func c10Eval(c c10Case) (ok bool, sig, detail string) {
 	}
 	L := c.L
 	switch c.Op {
+	case "mixed":
+		return c10Mixed(c, locs)
 	case "insert-delete", "embed-delete":
 		res := locdom.Seq(L)
 		keys := c03Keys(c03Case{Locs: c.Locs, Keys: c.Keys})
@@ -151,6 +160,139 @@ func c10Eval(c c10Case) (ok bool, sig, detail string) {
 	return true, "", "unknown op"
 }
 
+// c10Menu lists the operations offered on a sequence of length n.
+func c10Menu(n int) []c10Op {
+	var out []c10Op
+	mid := n / 2
+	for _, i := range []int{0, mid, n} {
+		for _, k := range []int{1, 2} {
+			out = append(out, c10Op{"insert", i, k}, c10Op{"embed", i, k})
+		}
+	}
+	if n >= 2 {
+		out = append(out, c10Op{"delete", 0, 1}, c10Op{"delete", mid, 1}, c10Op{"delete", n - 1, 1}, c10Op{"rotate", 1, 0}, c10Op{"rotate", n - 1, 0})
+	}
+	if n >= 3 {
+		out = append(out, c10Op{"delete", 0, 2}, c10Op{"slice", 1, n - 1}, c10Op{"slice", n - 1, 1})
+	}
+	out = append(out, c10Op{"reverse", 0, 0}, c10Op{"complement", 0, 0})
+	return out
+}
+
+// c10Mixed: a program of mixed edit operations; every transition is judged against
+// the model applied to the previously *observed* location (base atoms, order and
+// strand; markers and sites are C02..C05's business on their own domains).
+func c10Mixed(c c10Case, locs []gts.Location) (ok bool, sig, detail string) {
+	cur := plainResidues(c.L)
+	loc := locs[0]
+	for step, op := range c.Prog {
+		n := len(cur)
+		prev, pok := refmodel.Den(loc)
+		if !pok {
+			return true, "", ""
+		}
+		var out gts.Sequence
+		var exp refmodel.Atoms
+		var want []byte
+		skipLoc := false
+		if p, msg := engine.Safely(func() {
+			in := mkSeq(cur, []gts.Location{loc}, "h")
+			switch op.Op {
+			case "insert", "embed":
+				g := mkSeq(guestSeq(op.B), nil, "g")
+				out = applyInsertOp(op.Op, in, op.A, g)
+				want = append(append(append([]byte{}, cur[:op.A]...), guestSeq(op.B)...), cur[op.A:]...)
+				if op.Op == "embed" {
+					exp = prev.MapEmbed(op.A, op.B)
+				} else {
+					exp = prev.MapInsert(op.A, op.B)
+				}
+			case "delete":
+				out = gts.Delete(in, op.A, op.B)
+				want = append(append([]byte{}, cur[:op.A]...), cur[op.A+op.B:]...)
+				exp = prev.MapDelete(op.A, op.B)
+			case "rotate":
+				out = gts.Rotate(in, op.A)
+				want = append(append([]byte{}, cur[n-op.A:]...), cur[:n-op.A]...)
+				exp = prev.MapRotate(op.A, n)
+				skipLoc = anyNode(loc, func(l gts.Location) bool {
+					r, isR := l.(gts.Ranged)
+					_, isA := l.(gts.Ambiguous)
+					return (isR && r.Len() == n) || isA
+				})
+			case "reverse":
+				out = gts.Reverse(in)
+				want = make([]byte, n)
+				for k := range cur {
+					want[n-1-k] = cur[k]
+				}
+				exp = prev.MapMirror(n)
+			case "complement":
+				out = gts.Complement(in)
+				want = make([]byte, n)
+				for k := range cur {
+					want[k] = locdom.Comp(cur[k])
+				}
+				exp = prev.MapComplement()
+			case "slice":
+				out = gts.Slice(in, op.A, op.B)
+				if op.B < op.A {
+					want = append(append([]byte{}, cur[op.A:]...), cur[:op.B]...)
+					w := n - op.A + op.B
+					exp = prev.MapRotate(-op.A, n).MapDelete(w, n-w)
+					skipLoc = anyNode(loc, func(l gts.Location) bool {
+						r, isR := l.(gts.Ranged)
+						_, isA := l.(gts.Ambiguous)
+						return (isR && r.Len() == n) || isA
+					})
+				} else {
+					want = append([]byte{}, cur[op.A:op.B]...)
+					exp = prev.MapDelete(op.B, n-op.B).MapDelete(0, op.A)
+				}
+			}
+		}); p {
+			return false, "panic", fmt.Sprintf("step %d %v on %s: panic: %s", step, op, printLoc(loc), msg)
+		}
+		what := fmt.Sprintf("program %v from %s on L=%d, step %d (%v applied to %s)", c.Prog, c.Locs[0], c.L, step, op, printLoc(loc))
+		if string(out.Bytes()) != string(want) {
+			return false, "residues", what + fmt.Sprintf(": residues %q want %q", out.Bytes(), want)
+		}
+		f, cnt := findOnce(out.Features(), "h0")
+		if cnt == 0 {
+			if op.Op == "slice" && len(exp.Bases()) == 0 {
+				return true, "", ""
+			}
+			return false, "feature-lost", what + ": the feature is gone"
+		}
+		if cnt > 1 {
+			return false, "feature-once", what + ": the feature is duplicated"
+		}
+		obs, dok := refmodel.Den(f.Loc)
+		if skipLoc {
+			// full-length ranges / ambiguous spans under rotation are C04's business (leniency / outside the quantifier)
+			if !dok {
+				return true, "", ""
+			}
+			cur, loc = want, f.Loc
+			continue
+		}
+		if !dok {
+			return false, "malformed-location", what + ": result " + locdom.Encode(f.Loc) + " is not a well-formed location"
+		}
+		if !obs.Bases().InRange(len(want)) {
+			return false, "out-of-range", what + ": result " + printLoc(f.Loc) + " leaves the sequence"
+		}
+		if !exp.Bases().NoFlags().Equal(obs.Bases().NoFlags()) {
+			if dropRangedThenPoint(exp, obs.Bases()) {
+				return false, "join-ranged-then-point-end-dropped", what + fmt.Sprintf(": result %s denotes %s, want bases %s", printLoc(f.Loc), obs, exp.Bases())
+			}
+			return false, "denotation", what + fmt.Sprintf(": result %s denotes %s, want bases %s", printLoc(f.Loc), obs, exp.Bases())
+		}
+		cur, loc = want, f.Loc
+	}
+	return true, "", ""
+}
+
 func subsetsUpTo(n, k int, emit func([]int)) {
 	var cur []int
 	var rec func(start int)
@@ -252,6 +394,53 @@ func init() {
 				if !done {
 					complete = false
 				}
+			}
+			// mixed programs: BFS over operation sequences from every clean seed, every transition judged from the observed state
+			if complete {
+				depth := 2
+				mixL := []dom{{3, 2}, {4, 2}}
+				if r.Tier == "thorough" {
+					depth = 3
+					mixL = []dom{{3, 3}, {4, 2}, {5, 2}}
+				}
+				for _, dm := range mixL {
+					if !complete {
+						break
+					}
+					locs := locdom.Clean(dm.L, dm.parts)
+					done := r.ParallelFor(len(locs), func(idx int) {
+						enc := locdom.Encode(locs[idx])
+						var rec func(prog []c10Op, n int)
+						rec = func(prog []c10Op, n int) {
+							if len(prog) > 0 && len(prog) == depth {
+								eval(c10Case{Op: "mixed", L: dm.L, Locs: []string{enc}, Prog: append([]c10Op{}, prog...)}, true)
+								return
+							}
+							for _, op := range c10Menu(n) {
+								n2 := n
+								switch op.Op {
+								case "insert", "embed":
+									n2 = n + op.B
+								case "delete":
+									n2 = n - op.B
+								case "slice":
+									if op.B < op.A {
+										n2 = n - op.A + op.B
+									} else {
+										n2 = op.B - op.A
+									}
+								}
+								if len(prog)+1 < depth && n2 > 7 {
+									continue
+								}
+								rec(append(prog, op), n2)
+							}
+						}
+						rec(nil, dm.L)
+					})
+					complete = complete && done
+				}
+				r.Extra["mixed_program_depth"] = depth
 			}
 			r.Assumptions = []string{"clean domain; guest without features; fragments are compared as multisets of (position,strand) base atoms, their relative order is not constrained"}
 			return complete
